@@ -1139,3 +1139,153 @@ Proof.
 Qed.
 
 End DeleteText.
+
+(* ================================================================ 6. from the text to the rendered message *)
+From KV Require Import Model.ErrPos Spec.CaretSpec Proofs.ErrPosProofs Proofs.ExecPosProofs.
+From KV Require Model.TextErr Model.ErrRender Proofs.ErrRenderProofs.
+
+Section ErrText.
+Variable fo : fops.
+Variable re : bytes -> bytes -> Value.res bool.
+Variable fmt_v : F fo -> string.
+Hypothesis re_ok : re_plain re.                 (* the oracle returns no positional error of its own *)
+Variable ag : aggops fo.
+Variable pi pf : bytes -> option Z.
+
+Notation fp := (flat_map positions).
+Notation exec_of := (PipelineS.exec_of fo re fmt_v).
+
+(* ---- AggregatePlan.Init: its errors sit on a node of the field *)
+Lemma okp_afun_of nm p cargs : okp (fun z => z = p \/ In z (fp cargs)) (afun_of nm p cargs).
+Proof.
+  unfold afun_of. cbv zeta.
+  repeat match goal with
+         | |- okp _ (if String.eqb ?a ?b then _ else _) => destruct (String.eqb a b)
+         end; try exact I;
+  try (destruct (Nat.eqb (List.length cargs) 1); [exact I | left; reflexivity]).
+  destruct (Nat.eqb (List.length cargs) 2); [|left; reflexivity].
+  destruct cargs as [|a [|b [|c l]]]; try exact I.
+  destruct (negb _); [|destruct b; exact I].
+  right. cbn [flat_map]. apply in_or_app. right. apply in_or_app. left. apply epos_in_positions.
+Qed.
+
+Lemma okp_aexpr_of : forall e calls0 args0, okp (fun z => In z (positions e)) (aexpr_of fo e calls0 args0).
+Proof.
+  induction e; intros calls0 args0; cbn [aexpr_of]; try exact I.
+  - apply okp_bind.
+    + eapply okp_mono; [|apply IHe1]. intros z Hz. cbn [positions]. right. apply in_or_app. now left.
+    + intros x. apply okp_bind.
+      * eapply okp_mono; [|apply IHe2]. intros z Hz. cbn [positions]. right. apply in_or_app. now right.
+      * intros y. destruct (arith_of _); exact I.
+  - match goal with |- okp _ (if Checker.is_aggr_call ?c then _ else _) =>
+      destruct (Checker.is_aggr_call c); [|exact I] end.
+    match goal with |- okp _ (match call_name ?n with _ => _ end) =>
+      destruct (call_name n) as [nm|]; [|exact I] end.
+    apply okp_bind.
+    + eapply okp_mono; [|apply okp_afun_of]. intros z [->|Hz]; cbn [positions]; [now left|].
+      right. apply in_or_app. now right.
+    + intros f. match goal with |- okp _ (match ?l with _ => _ end) => destruct l; exact I end.
+Qed.
+
+Lemma okp_agg_split : forall fields keys args, okp (fun z => In z (fp fields)) (agg_split fo fields keys args).
+Proof.
+  induction fields as [|f fields IH]; intros keys args; cbn [agg_split]; [exact I|].
+  destruct (is_agg_field f).
+  - apply okp_bind.
+    + eapply okp_mono; [|apply okp_aexpr_of]. intros z Hz. cbn [flat_map]. apply in_or_app. now left.
+    + intros x. apply okp_bind; [|intros; exact I].
+      eapply okp_mono; [|apply IH]. intros z Hz. cbn [flat_map]. apply in_or_app. now right.
+  - apply okp_bind; [|intros; exact I].
+    eapply okp_mono; [|apply IH]. intros z Hz. cbn [flat_map]. apply in_or_app. now right.
+Qed.
+
+(* the front end alone raises SyntaxErrors only *)
+Lemma front_s_shape q :
+  match front_s fo q with STBuildErr _ | STRunErr _ | STRunPanic => False | _ => True end.
+Proof.
+  unfold front_s. cbv zeta. destruct (pc_oom fo q (lex q)); [exact I|].
+  destruct (PipelineW.head_kind (lex q)); try exact I.
+  destruct (parse_real fo (lex q)) as [s|z| |]; try exact I.
+  destruct s as [x| | |]; try exact I.
+  destruct (to_check_s x) as [c|]; [|exact I].
+  destruct (Checker.check_stmt fo true c) as [c2|[p|p|]| |]; cbn [of_front stbind]; try exact I.
+  destruct (Checker.check_stmt_calls c2) as [u|[p|p|]| |]; cbn [of_front stbind]; try exact I.
+  destruct c2; exact I.
+Qed.
+
+Definition st_pos_ok {A} (q : string) (r : stres A) : Prop :=
+  match r with
+  | STReject z => pos_in_query q z = true
+  | STBuildErr (Value.EExec p) | STBuildErr (Value.ESyntax p)
+  | STRunErr (Value.EExec p) | STRunErr (Value.ESyntax p) => pos_in_query q (Z.of_nat p) = true
+  | _ => True
+  end.
+
+(* every error of NewOptimizer(q).BuildPlan(store) -- of the parser, the checker, the call
+   check, buildFinalPlan, AggregatePlan.Init -- carries -1 or an offset inside the query *)
+Theorem plan_stmt_text_err_pos q : st_pos_ok q (plan_stmt_text fo re fmt_v q).
+Proof.
+  unfold plan_stmt_text. pose proof (front_s_shape q) as Hsh.
+  destruct (front_s fo q) as [[[x fields] w]|z|e|e| | | |] eqn:Ef; cbn [stbind st_pos_ok] in *; try exact I; try contradiction.
+  2:{ destruct (front_s_reject_parse_check fo re fmt_v q z Ef) as (k & _ & E).
+      exact (parse_check_err_in_query_thm fo re fmt_v q k z E). }
+  cbn [fst snd]. pose proof (front_s_parse_check fo re fmt_v q x fields w Ef) as Epc.
+  unfold plan_of_front. destruct (PipelineW.limit_of _) as [limit|]; [|exact I].
+  destruct (fold_oom fo re fmt_v w || existsb (fun nf => fold_oom fo re fmt_v (snd nf)) fields) eqn:Eo; [exact I|].
+  apply orb_false_iff in Eo. destruct Eo as [_ Eo]. cbv zeta.
+  unfold plan_stage, plan_oom, plan_check, fold_fields in Epc. rewrite Eo in Epc.
+  change (fun nf : string * expr => (fst nf, FoldStmt.exec_tree fo re fmt_v (snd nf)))
+    with (fun nf : string * expr => (fst nf, exec_of (snd nf))) in Epc.
+  destruct (plan_select x _) eqn:Ep; cbn [st_pos_ok]; try exact I.
+  2:{ exact (parse_check_err_in_query_thm fo re fmt_v q _ z Epc). }
+  (* AggregatePlan.Init *)
+  destruct (parse_check_ok_positions_thm fo re fmt_v q _ _ _ Epc) as (_ & _ & _ & Hq).
+  rewrite Forall_forall in Hq.
+  assert (G : forall p, In p (fp (map snd (map (fun nf : string * expr => (fst nf, exec_of (snd nf))) fields))) ->
+                        pos_in_query q (Z.of_nat p) = true).
+  { intros p Hp. apply Hq. apply in_or_app. right. unfold cstmt_positions. apply in_or_app. left.
+    cbn [cstmt_exprs]. rewrite map_map in Hp. cbn [snd] in Hp.
+    apply in_flat_map in Hp as (T & HT & Hp). apply in_map_iff in HT as (nf & <- & Hnf).
+    apply in_flat_map. exists (snd nf). split; [apply in_or_app; left; apply in_map; exact Hnf|].
+    exact (exec_tree_positions_lemma fo re fmt_v (snd nf) p Hp). }
+  pose proof (okp_agg_split (map snd (map (fun nf : string * expr => (fst nf, exec_of (snd nf))) fields)) [] []) as Hok.
+  destruct (agg_split fo _ [] []) as [sp|[p|p|]| |]; cbn [of_init stbind st_pos_ok okp] in *; try exact I.
+  - apply G. exact Hok.
+  - apply G. exact Hok.
+Qed.
+
+(* ... and so does every positional error of the drain (C17: select_stmt_exec_err_pos_in_query) *)
+Theorem select_stmt_text_err_pos q d m :
+  st_pos_ok q (AggErrPos.select_stmt_text_stp fo re fmt_v ag pi pf q d m).
+Proof.
+  unfold AggErrPos.select_stmt_text_stp. pose proof (plan_stmt_text_err_pos q) as Hb.
+  destruct (plan_stmt_text fo re fmt_v q) as [pl|z|e|e| | | |] eqn:Ep; cbn [stbind] in *; try exact Hb.
+  pose proof (ExecPosStmtProofs.select_stmt_exec_err_pos_stp_lemma fo re fmt_v re_ok ag pi pf q pl d m) as H.
+  unfold AggErrPos.select_stmt_text_stp in H. rewrite Ep in H. cbn [stbind] in H.
+  destruct (AggErrPos.drain_planned_pos fo re ag pi pf pl d m) as [a|[p|p|]| |];
+    cbn [of_drain st_pos_ok] in *; try exact I.
+  - exact (proj2 (H p eq_refl (or_introl eq_refl))).
+  - exact (proj2 (H p eq_refl (or_intror eq_refl))).
+Qed.
+
+(* THE COMPOSED STATEMENT, from the text to the rendered message: whatever error the SELECT
+   pipeline returns for a query text q -- at BuildPlan or while draining, row mode or batch
+   mode --, once bound to q (BindQuery) with any padding (SetPadding; also a negative one) and
+   any message: its position is -1 or an offset INSIDE q, and Error() returns a string (no
+   slice-bounds panic in outputQueryAndErrPos) *)
+Theorem error_of_text_renders q d m msg pad e :
+  TextErr.st_error q msg pad (AggErrPos.select_stmt_text_stp fo re fmt_v ag pi pf q d m) = Some e ->
+  ErrRender.e_query e = q /\
+  pos_in_query q (ErrRender.e_pos e) = true /\
+  exists s, ErrRender.error_text true e = ErrRender.Ok s.
+Proof.
+  intros H. pose proof (select_stmt_text_err_pos q d m) as Hp.
+  assert (G : ErrRender.e_query e = q /\ pos_in_query q (ErrRender.e_pos e) = true).
+  { destruct (AggErrPos.select_stmt_text_stp fo re fmt_v ag pi pf q d m) as [a|z|[p|p|]|[p|p|]| | | |];
+      cbn [TextErr.st_error TextErr.qerr_of st_pos_ok] in *; try discriminate;
+      injection H as <-; cbn [ErrRender.e_query ErrRender.e_pos]; split; auto. }
+  destruct G as [G1 G2]. split; [exact G1|]. split; [exact G2|].
+  apply ErrRenderProofs.error_text_never_panics.
+Qed.
+
+End ErrText.
